@@ -64,7 +64,13 @@ func (d *Disconnect) Unpack(r io.Reader) error {
 		if !ValidateCode(DISCONNECT, d.Code) {
 			return codes.ErrProtocol
 		}
-		return d.Properties.Unpack(bufr, DISCONNECT)
+		if err := d.Properties.Unpack(bufr, DISCONNECT); err != nil {
+			return err
+		}
+		return endOfPacket(bufr)
+	}
+	if d.FixHeader.RemainLength != 0 {
+		return codes.ErrMalformed
 	}
 	return nil
 }
